@@ -72,7 +72,7 @@ func main() {
 	r.Rule("case = (2-4 registry hosts out of a pool incl. same name/different port, each with own credential {user+password, +refresh token, refresh only, static access token, wrong password, none}, " +
 		"scheme {Basic, Bearer, open, unknown}, realm on {own host, foreign token host (possibly shared), another registry's host}; one auth.Client with cache flavour {none, NewCache, NewSingleContextCache}, ForceAttemptOAuth2 on/off). " +
 		"Repository names include host:port/ prefixes and several colons (scope type ends at the first colon, actions start after the last). seq: history of 8-30 ops (requests GET/HEAD/POST/PUT/DELETE/ping/catalog/mount with scope hints {none, exact, oddly written, superset, extra repo, for another host, global}, token expiry, scheme change, realm move). " +
-		"conc: warm-up, then rounds of groups of identical cold requests released together with background traffic to other hosts; the token endpoint or the credential helper is held until all entered Cache.Set, then nobody / the fetch owner (once or twice in a row) / a waiter has its context ended by the harness with context.Canceled or context.DeadlineExceeded (manual contexts, no wall clock); plus unsynchronised storms and, for the single-context cache, probes of 3-8 concurrent requests with different scopes to one host that enter the host-keyed Cache.Set together (spin barrier in the hook). " +
+		"conc: warm-up, then rounds of groups of identical cold requests released together with background traffic to other hosts; the token endpoint or the credential helper is held until all entered Cache.Set, then nobody / the fetch owner (once or twice in a row) / a waiter has its context ended by the harness with context.Canceled or context.DeadlineExceeded (manual contexts, no wall clock); plus late-join probes (L held inside the fetch, waiter W cancelled and returned, R seen inside Once.Do while the fetch is still held: one fetch and L's token are demanded), unsynchronised storms and, for the single-context cache, probes of 3-8 concurrent requests with different scopes to one host that enter the host-keyed Cache.Set together (spin barrier in the hook). " +
 		"Every request at the innermost transport is scanned for every secret (raw, base64, form/query-decoded); every returned response is matched with the registry model's last answer. " +
 		"distinct = hash(flavour, force, per-registry (scheme, realm kind, credential kind), op / round shapes); non-trivial = at least one send happened while the client held a secret or token of another host, and (seq) a cached token was presented by a request other than the one that fetched it, or the flavour is none, " +
 		"(conc) at least one group had >= 2 live requests and its token fetch or credential lookup was held while all of them were inside Cache.Set (for flavour none: all held at once)")
@@ -100,6 +100,9 @@ func main() {
 		r.Inconclusive("hook auth.cache.set.enter never reached: coalescing rounds were not synchronised")
 	}
 	floor := r.N(4000, 100000)
+	if r.Counter("late_joiners_sharing_the_inflight_fetch") < int64(r.N(60, 1500)) {
+		r.Inconclusive(fmt.Sprintf("only %d late-join probes completed", r.Counter("late_joiners_sharing_the_inflight_fetch")))
+	}
 	if r.Counter("coalesced_groups") < int64(r.N(800, 25000)) || r.Counter("handovers_after_cancelled_owner") < int64(r.N(300, 10000)) {
 		fmt.Printf("BROKEN: property=C16 too few coalescing observations (coalesced_groups=%d handovers=%d)\n",
 			r.Counter("coalesced_groups"), r.Counter("handovers_after_cancelled_owner"))
@@ -977,6 +980,14 @@ func runConc(e *env, i int) {
 			shape = append(shape, singleCtxProbe(e, rd))
 			continue
 		}
+		if e.flavour != "none" && rng.IntN(5) == 0 {
+			s, ok := lateJoinProbe(e, rd)
+			shape = append(shape, s)
+			if ok {
+				nt = true
+			}
+			continue
+		}
 		s, ok := coalesceRound(e, rd)
 		shape = append(shape, s)
 		if ok {
@@ -1176,6 +1187,154 @@ func head(s string, n int) string {
 		return s[:n]
 	}
 	return s
+}
+
+// lateJoinProbe: request L is inside the token fetch (held); request W with the
+// same host / scheme / scope key enters Cache.Set, has its context ended and
+// returns; request R then enters Cache.Set and is seen inside syncutil.Once.Do
+// (goroutine dump) while L's fetch is STILL held; only then is the fetch
+// released. R provably waited on the in-flight fetch, so the statement demands
+// that it shares L's result: exactly one fetch reached the hold point and R
+// presents the token L's fetch produced.
+func lateJoinProbe(e *env, rd int) (string, bool) {
+	rng := e.rng
+	reg := -1
+	for _, k := range shuffled(rng, []int{0, 1, 2, 3}[:len(e.regs)]) {
+		rs := e.regs[k]
+		scheme := e.world.Registry(rs.Host).Scheme
+		if !e.valid(rs) || scheme != authmodel.SchemeBasic && scheme != authmodel.SchemeBearer {
+			continue
+		}
+		if scheme == authmodel.SchemeBasic && rs.touched || rs.CredKind == "access" && rs.touched {
+			continue // warm: requests would not enter Set
+		}
+		reg = k
+		break
+	}
+	if reg < 0 {
+		return "late-none", false
+	}
+	rs := e.regs[reg]
+	scheme := e.world.Registry(rs.Host).Scheme
+	sp := e.genRequest(reg, fmt.Sprintf("late%d/%s", rd, e.repos[rng.IntN(len(e.repos))]))
+	g := &group{reg: reg, spec: sp, n: 3, mode: "late", holdPoint: "token", endErr: context.Canceled}
+	if scheme == authmodel.SchemeBasic || rs.CredKind == "access" || rng.IntN(4) == 0 {
+		g.holdPoint = "cred"
+	}
+	if rng.IntN(3) == 0 {
+		g.endErr = context.DeadlineExceeded
+	}
+	gt := &gate{members: map[int]*member{}, open: make(chan struct{}), heldNow: map[int]bool{}}
+	e.gate = gt
+	defer func() { e.gate = nil }()
+	e.ops = append(e.ops, fmt.Sprintf("late-join probe: L, cancelled W, R = %s %s%s hold=%s", sp.Method, rs.Host, sp.Path, g.holdPoint))
+	launch := func() *member {
+		m := &member{grp: g, done: make(chan struct{})}
+		go func() {
+			m.out = e.do(sp, func(ctx context.Context, corr int) context.Context {
+				c := newManualCtx(ctx)
+				gt.mu.Lock()
+				m.corr, m.mctx = corr, c
+				gt.members[corr] = m
+				gt.mu.Unlock()
+				return c
+			})
+			close(m.done)
+		}()
+		return m
+	}
+	inOnce := func() int {
+		buf := make([]byte, 1<<20)
+		return strings.Count(string(buf[:runtime.Stack(buf, true)]), "syncutil.(*Once).Do(")
+	}
+	waitCond := func(cond func() bool) bool {
+		deadline := time.Now().Add(10 * time.Second)
+		for !cond() {
+			if time.Now().After(deadline) {
+				return false
+			}
+			time.Sleep(50 * time.Microsecond)
+		}
+		return true
+	}
+	arrivals := func() int {
+		gt.mu.Lock()
+		defer gt.mu.Unlock()
+		return gt.arrivals
+	}
+	giveUp := func(where string) (string, bool) {
+		close(gt.open)
+		e.stop = true
+		e.res.Restart = true
+		e.res.Inconc = "late-join probe: " + where + " not reached before the watchdog"
+		return "late-unsynchronised", false
+	}
+	l := launch()
+	if !waitCond(func() bool { return arrivals() >= 1 }) {
+		return giveUp("L inside the fetch")
+	}
+	w := launch()
+	if !waitCond(func() bool { return gt.hookHits.Load() >= 2 }) {
+		return giveUp("W inside Cache.Set")
+	}
+	time.Sleep(time.Duration(rng.IntN(400)) * time.Microsecond) // W cancelled on its way into, or inside, Once.Do
+	w.cancelled.Store(true)
+	w.mctx.end(g.endErr)
+	select {
+	case <-w.done:
+	case <-time.After(10 * time.Second):
+		return giveUp("W's return")
+	}
+	r := launch()
+	if !waitCond(func() bool { return gt.hookHits.Load() >= 3 && inOnce() >= 2 }) {
+		return giveUp("R inside Once.Do")
+	}
+	gt.mu.Lock()
+	stillHeld := gt.heldNow[l.corr] // L's fetch is still in flight at the moment of release
+	gt.mu.Unlock()
+	close(gt.open)
+	for _, m := range []*member{l, r} {
+		select {
+		case <-m.done:
+		case <-time.After(15 * time.Second):
+			hang(e, "late-join probe")
+			return "late-hung", false
+		}
+	}
+	e.judge(w.out, false, "late-join probe: cancelled waiter W")
+	e.judge(l.out, true, "late-join probe: leader L")
+	e.judge(r.out, true, "late-join probe: late joiner R")
+	e.count("late_join_probes", 1)
+	rs.touched, rs.lastSpec = true, sp
+	if !stillHeld {
+		e.count("late_join_probes_not_held", 1)
+		return "late-notheld", false
+	}
+	detail := map[string]any{"request": sp, "host": rs.Host, "hold_point": g.holdPoint, "fetch_arrivals": arrivals(),
+		"L": e.world.EventsFor(l.corr), "W": e.world.EventsFor(w.corr), "R": e.world.EventsFor(r.corr)}
+	stR := e.world.State(r.corr)
+	switch {
+	case arrivals() != 1:
+		e.violate("in-flight-fetch-not-shared:second-fetch-after-cancelled-waiter",
+			fmt.Sprintf("late-join probe on %s (%s cache, hold=%s): R entered Cache.Set and Once.Do while L's fetch was in flight (after waiter W had been cancelled), yet %d fetches were started instead of one", rs.Host, e.flavour, g.holdPoint, arrivals()), detail)
+	case scheme == authmodel.SchemeBearer && rs.CredKind != "access" && r.out.err == nil && (stR.Fetches != 0 || !e.presentedFetchOf(l.corr, stR)):
+		e.violate("in-flight-fetch-not-shared:late-joiner-has-other-token",
+			fmt.Sprintf("late-join probe on %s (%s cache): R waited on L's in-flight fetch but did not present the token that fetch produced (own fetches: %d)", rs.Host, e.flavour, stR.Fetches), detail)
+	default:
+		e.count("late_joiners_sharing_the_inflight_fetch", 1)
+	}
+	return fmt.Sprintf("late[%s/%s/%s]", scheme, rs.CredKind, g.holdPoint), true
+}
+
+// presentedFetchOf reports whether the credential on the request's last send is
+// the token fetched by request fetcher.
+func (e *env) presentedFetchOf(fetcher int, st authmodel.ReqState) bool {
+	if len(st.Presented) == 0 {
+		return false
+	}
+	_, tok, _ := strings.Cut(st.Presented[len(st.Presented)-1], " ")
+	it := e.world.IssuedToken(strings.TrimSpace(tok))
+	return it != nil && it.FetchCorr == fetcher
 }
 
 // coalesceRound: groups of identical cold requests are released together; the
